@@ -73,7 +73,18 @@ def programs():
   def d_final(shared, st):
     return {'hist': st['hist'], 'acc': st['acc'], 'n': shared['b']}
 
-  return {'A': (a_init, a_step, a_final, True), 'B': (b_init, b_step, None, False), 'C': (c_init, c_step, c_final, False),
+  # PE: integer arithmetic on the batch values (ids hashed into buckets): exact in the batch's own dtype only
+  def e_init(shared, ci):
+    return {'h': jnp.zeros((), jnp.int32), 's': jnp.zeros((), jnp.float32)}
+
+  def e_step(st, b):
+    v = jnp.where(b['__mask__'], b['x'], 0)
+    return {'h': st['h'] + jnp.sum(v % 10).astype(jnp.int32), 's': st['s'] + jnp.sum(v % 7).astype(jnp.float32) * 0.25}
+
+  def e_final(shared, st):
+    return {'h': st['h'], 's': st['s'] + shared['w'][0]}
+
+  return {'E': (e_init, e_step, e_final, False), 'A': (a_init, a_step, a_final, True), 'B': (b_init, b_step, None, False), 'C': (c_init, c_step, c_final, False),
           'D': (d_init, d_step, d_final, False)}
 
 
@@ -81,7 +92,7 @@ def programs():
 CLIENT_IDS = [0, b'c1', None, ('t', 3), '', b'']
 
 
-def make_inputs(profile, seed, typed_keys=False, dup_ids=False):
+def make_inputs(profile, seed, typed_keys=False, dup_ids=False, hetero=None):
   import jax
   import jax.numpy as jnp
   shared = {'w': jnp.asarray([1.0, 2.0 + seed % 3]), 'b': jnp.asarray(3, jnp.int32)}
@@ -91,6 +102,19 @@ def make_inputs(profile, seed, typed_keys=False, dup_ids=False):
     # clients by number of real examples differs from ordering them by number of batches
     batches = [{'x': jnp.asarray([1.0 + i, 2.0 + j + 0.5 * (seed % 2)]),
                 '__mask__': jnp.asarray([True, k < 2]), 'mul': 7 + j, 'inc': 1.5 + i} for j in range(k)]   # mul/inc: Python scalars
+    if hetero:
+      # clients of two KINDS (decided by their number of batches, so that the pmap backend's blocks are homogeneous):
+      # other row width, or other dtype (large int32 ids that float32 cannot hold), than the clients with many batches
+      long_kind = (k >= 3) != hetero.endswith('_rev')
+      width = 4 if (hetero.startswith('width') and not long_kind) else 2
+      as_int = hetero.startswith('dtype') and not long_kind
+      batches = []
+      for j in range(k):
+        if as_int:
+          x = jnp.asarray([16777217 + 2 * i, 16777219 + 4 * j] + [33554433 + j] * (width - 2), jnp.int32)
+        else:
+          x = jnp.asarray([1.0 + i, 2.0 + j + 0.5 * (seed % 2)] + [3.0 + j] * (width - 2), jnp.float32)
+        batches.append({'x': x, '__mask__': jnp.asarray([True] * (width - 1) + [k < 2]), 'mul': 7 + j, 'inc': 1.5 + i})
     ci = {'scale': jnp.asarray(1.0 + i), 'key': jax.random.PRNGKey(10 + i), 'start': 200 + 20 * i}
     if typed_keys:
       ci['key'] = jax.random.key(10 + i)   # new-style typed key with the same key data
@@ -168,7 +192,7 @@ def fold(case):
   outs = set()
   for backend in case['backends']:
     nc = dict(case, backends=[backend])
-    shared, clients = make_inputs(profile, case.get('seed', 0), bool(case.get('typed_keys')), bool(case.get('dup_ids')))
+    shared, clients = make_inputs(profile, case.get('seed', 0), bool(case.get('typed_keys')), bool(case.get('dup_ids')), case.get('hetero'))
     if case.get('dup_ids'):
       # ids repeat: results are matched as a multiset of (id, output values); one result per INPUT CLIENT
       uniq = [(('u', i), b, ci) for i, (_, b, ci) in enumerate(clients)]
@@ -269,6 +293,31 @@ def _markers():
   return _CACHE['markers']
 
 
+def _decorated(name):
+  """ONE long-lived function per backend, decorated with @for_each_client_backend(backend) (the context manager used as a
+  decorator): recursive calls and calls from several threads re-enter the same decorated function object."""
+  from fedjax.core import for_each_client as fec
+  key = ('deco', name)
+  if key not in _CACHE:
+    @fec.for_each_client_backend(_markers()[name])
+    def fn(inner):
+      return inner()
+    _CACHE[key] = fn
+  return _CACHE[key]
+
+
+def decoify(prog, inner_with=False, depth=0):
+  """The same program with every context entered through the decorator spelling (inner_with: nested ones stay `with`)."""
+  out = []
+  for item in prog:
+    if item[0] == 'with':
+      kind = 'with' if (inner_with and depth > 0) else 'deco'
+      out.append([kind, item[1], decoify(item[2], inner_with, depth + 1), item[3]])
+    else:
+      out.append(item)
+  return out
+
+
 def observe():
   from fedjax.core import for_each_client as fec
   be = fec.get_for_each_client_backend()
@@ -304,6 +353,19 @@ def run_prog(prog, obs, point):
       except Boom:
         pass
       obs.append(observe())
+    elif item[0] == 'deco':
+      def inner(item=item):
+        point()
+        obs.append(observe())
+        run_prog(item[2], obs, point)
+        point()
+        if item[3]:
+          raise Boom()
+      try:
+        _decorated(item[1])(inner)
+      except Boom:
+        pass
+      obs.append(observe())
 
 
 def ref_prog(prog, cur, obs):
@@ -315,7 +377,7 @@ def ref_prog(prog, cur, obs):
     elif item[0] == 'set':
       cur = item[1]
       obs.append(name(cur))
-    elif item[0] == 'with':
+    elif item[0] in ('with', 'deco'):
       old = cur
       cur = item[1]
       obs.append(name(cur))
@@ -541,6 +603,12 @@ def plan(ctx):
   for profile in ([1, 0, 2], [2, 2], [0]):
     for prog in ('A', 'B'):
       fc.append({'prog': prog, 'profile': profile, 'backends': backends, 'seed': ctx.seed, 'iter': False, 'typed_keys': True})
+  # cohorts of two kinds of clients (row width / dtype of the batches), homogeneous inside every pmap block but not across blocks
+  for het in ('width', 'width_rev', 'dtype', 'dtype_rev'):
+    for profile, bes in (([3, 3, 2, 1], ['jit', 'debug', 'pmap2']), ([2, 1, 3, 3], ['jit', 'pmap2']), ([3, 4, 1, 0], ['pmap2']),
+                         ([4, 3, 3, 1, 0], ['jit', 'pmap3']), ([2, 3, 3, 1, 3, 2], ['pmap3'])):
+      for prog in (('E', 'C', 'D') if het.startswith('width') else ('E',)):
+        fc.append({'prog': prog, 'profile': profile, 'backends': bes, 'seed': ctx.seed, 'iter': False, 'hetero': het})
   # group by program so that each worker compiles few backends: chunk = contiguous cases
   ctx.pmap('fold', fc, chunk=max(4, len(fc) // 32))
   ctx.run('selection_histories', [{'made_under': m, 'consumed_under': c, 'scenario': sc} for m in (None, 'debug', 'jit')
@@ -556,6 +624,18 @@ def plan(ctx):
   p1s = [[['set', 'A']], [['with', 'B', [], False]], [['get']]]
   for a, b, c in itertools.product(p1 if th else p1s, repeat=3):
     tc.append({'progs': [a, b, c], 'mode': 'op', 'bound': 3 if th else 2})
+  # the decorator spelling (@for_each_client_backend(b) on ONE long-lived function per backend): every 1- and 2-node program
+  # alone (recursion into the same decorated function), and pairs of threads that overlap inside the same decorated function
+  dc = []
+  for a in p2:
+    if any(it[0] == 'with' for it in a):
+      dc.append({'progs': [decoify(a)], 'mode': 'op', 'bound': -1})
+      if any(it[0] == 'with' and any(x[0] == 'with' for x in it[2]) for it in a):
+        dc.append({'progs': [decoify(a, inner_with=True)], 'mode': 'op', 'bound': -1})
+  for a in [decoify(x) for x in p2 if any(it[0] == 'with' for it in x)][::(1 if th else 3)]:
+    for b in ([['deco', 'A', [], False]], [['deco', 'B', [['get']], False]], [['set', 'A'], ['deco', 'B', [], True]]):
+      dc.append({'progs': [a, b], 'mode': 'op', 'bound': 3 if th else 2})
+  tc += dc
   ctx.pmap('threads', tc, chunk=max(4, len(tc) // 160))
   line = [
       [[['with', 'A', [['get']], False]], [['with', 'B', [['get']], True]]],
